@@ -4,6 +4,8 @@ import CookModel.Lemmas.StdMetaLists
 import CookModel.Lemmas.StdMetaNameUrl
 import CookModel.Lemmas.StdMetaPairs
 import CookModel.Lemmas.StdMetaCoupling
+import CookModel.Lemmas.StdMetaMap
+import CookModel.Side.StdMetaBuilt
 /-
   C13  Standard metadata values are interpreted as documented.
 
@@ -88,6 +90,8 @@ theorem C13_time_value_spec (c : Conv Rat) (hr : TimeRatiosNonzero c) (v : Y) (t
 
 /-! ### servings, tags, locale, name and URL -/
 
+/-- `as_servings` is exactly `Spec.Servings`: one number below 2^32; or the leading numbers of the `|`-separated, trimmed
+    entries of a text; or of the elements of a list (numbers, or texts starting with one); duplicates refused -/
 theorem C13_servings_spec (v : Y) (l : List Nat) : valueAsServings v = some l ↔ Spec.Servings v l :=
   valueAsServings_iff v l
 
@@ -129,6 +133,8 @@ theorem C13_servings_sound (v : Y) (l : List Nat) (h : valueAsServings v = some 
   | map m => exact absurd hs (by simp [Spec.Servings])
   | tagged => exact absurd hs (by simp [Spec.Servings])
 
+/-- `as_tags` is exactly `Spec.Tags`: the trimmed entries of a comma text, or the entries of a list (texts or numbers),
+    empty entries dropped, first occurrence of each kept, in order -/
 theorem C13_tags_spec (v : Y) (l : List Str) : valueAsTags v = some l ↔ Spec.Tags v l :=
   valueAsTags_iff v l
 
@@ -167,9 +173,12 @@ theorem C13_tags_entries (s : Str) (l : List Str) (h : valueAsTags (.str s) = so
     rw [h1] at h2; subst h2
     exact ⟨⟨e, he, (trim_spec e t).mpr ht⟩, hne⟩
 
+/-- `as_locale` is exactly `ll` or `ll_CC` with two ASCII letters each -/
 theorem C13_locale_spec (v : Y) (r : Str × Option Str) : valueAsLocale v = some r ↔ Spec.Locale v r :=
   valueAsLocale_iff v r
 
+/-- `as_name_and_url` (author, source) is exactly `Spec.NameAndUrl`: `Name <Url>` with a valid URL, else a bare URL, else a
+    name (blank parts dropped); or a mapping with `name` and/or `url` texts -/
 theorem C13_nameurl_spec (alpha : Char → Bool) (hcolon : alpha ':' = false) (v : Y) (r : NameUrl) :
     asNameAndUrl alpha v = some r ↔ Spec.NameAndUrl alpha v r :=
   asNameAndUrl_iff alpha hcolon v r
@@ -219,6 +228,94 @@ theorem C13_converter_independence_pairs (c : Conv Rat) (ρ : Str → Str) (h : 
     pairLoop c total (ps.flatMap (fun p => [p.1, ρ p.2])) = pairLoop emptyConv total (ps.flatMap (fun p => [p.1, p.2])) :=
   pairLoop_renamed c ρ h ps hnum total
 
+/-! ### Added by the clause audit (notes/audit-C13.md): the `Metadata` accessors over the whole mapping -/
+
+/-- `Metadata::{servings, tags, locale, author, source, title, description}`: each returns exactly the documented
+    reading (`Spec`) of the entry stored under the canonical name of its key, and nothing when the key is absent or
+    the value is outside the documented forms. -/
+theorem C13_metadata_accessors_spec (alpha : Char → Bool) (hcolon : alpha ':' = false) (m : List (Y × Y)) :
+    (∀ l, metaServings m = some l ↔ ∃ v, metaGet .servings m = some v ∧ Spec.Servings v l) ∧
+    (∀ l, metaTags m = some l ↔ ∃ v, metaGet .tags m = some v ∧ Spec.Tags v l) ∧
+    (∀ r, metaLocale m = some r ↔ ∃ v, metaGet .locale m = some v ∧ Spec.Locale v r) ∧
+    (∀ r, metaAuthor alpha m = some r ↔ ∃ v, metaGet .author m = some v ∧ Spec.NameAndUrl alpha v r) ∧
+    (∀ r, metaSource alpha m = some r ↔ ∃ v, metaGet .source m = some v ∧ Spec.NameAndUrl alpha v r) ∧
+    (∀ s, metaTitle m = some s ↔ metaGet .title m = some (.str s)) ∧
+    (∀ s, metaDescription m = some s ↔ metaGet .description m = some (.str s)) := by
+  refine ⟨?_, ?_, ?_, ?_, ?_, ?_, ?_⟩
+  · intro l; simp only [metaServings, Option.bind_eq_some_iff, valueAsServings_iff]
+  · intro l; simp only [metaTags, Option.bind_eq_some_iff, valueAsTags_iff]
+  · intro r; simp only [metaLocale, Option.bind_eq_some_iff, valueAsLocale_iff]
+  · intro r; simp only [metaAuthor, Option.bind_eq_some_iff, asNameAndUrl_iff alpha hcolon]
+  · intro r; simp only [metaSource, Option.bind_eq_some_iff, asNameAndUrl_iff alpha hcolon]
+  · intro s
+    simp only [metaTitle, Option.bind_eq_some_iff]
+    constructor
+    · rintro ⟨v, hv, h⟩; cases v <;> simp [asStr] at h; subst h; exact hv
+    · intro h; exact ⟨_, h, rfl⟩
+  · intro s
+    simp only [metaDescription, Option.bind_eq_some_iff]
+    constructor
+    · rintro ⟨v, hv, h⟩; cases v <;> simp [asStr] at h; subst h; exact hv
+    · intro h; exact ⟨_, h, rfl⟩
+
+/-- `Metadata::time` over the three keys, as documented ("the `time` key `as_time`; or, if missing, the combination of
+    the `prep time` and `cook time` keys `as_minutes`"): with a `time` key the result is its documented reading
+    (`Spec.TimeOf`); without one it is `Composed` of the documented minutes of `prep time` and `cook time` — an absent
+    entry or one outside the documented forms counts as nothing — provided at least one of them reads. -/
+theorem C13_metadata_time_spec (c : Conv Rat) (hr : TimeRatiosNonzero c) (m : List (Y × Y)) (t : RecipeTime) :
+    metaTime c m = some t ↔ Spec.MetaTime c (metaGet .time m) (metaGet .prepTime m) (metaGet .cookTime m) t :=
+  metaTime_iff c hr m t
+
+/-- Precedence of the `time` key: when it is present, `prep time` and `cook time` are not consulted at all — also when
+    the `time` value is outside the documented forms (then `Metadata::time` gives nothing; it does not fall back). -/
+theorem C13_metadata_time_precedence {α : Type} [Arith α] (c : Conv α) (m : List (Y × Y)) (v : Y)
+    (hv : metaGet .time m = some v) : metaTime c m = (valueAsTime c v).toOption :=
+  metaTime_of_time_key c m v hv
+
+/-- "A value outside the documented forms gives a warning at parse time and nothing from the accessor", at the level of
+    `Metadata`: for the entry stored under the canonical name of a standard key, the analysis warns exactly when the
+    `Metadata` accessor that reads this key (`title`, `description`, `tags`, `author`, `source`, `servings`, `locale`,
+    `time`; for `prep time` / `cook time` the part `Metadata::time` reads) returns nothing. -/
+theorem C13_metadata_warning_iff_nothing {α : Type} [Arith α] (c : Conv α) (alpha : Char → Bool) (k : StdKey)
+    (m : List (Y × Y)) (v : Y) (hv : metaGet k m = some v) :
+    entryWarns c alpha k.canon v = true ↔ metaGives c alpha k m = false :=
+  metaWarns_iff c alpha k m v hv
+
+/-- every standard key is recognised under its canonical name (so the entry `Metadata::get` finds is one the analysis checked) -/
+theorem C13_std_key_canon (k : StdKey) : StdKey.fromStr k.canon = some k := stdKey_canon_roundtrip k
+
+/-! ### … converters -/
+
+/-- converter independence for whole texts: a text whose words are `number unit` pairs reads, under a converter that
+    renames the hard-coded units, as the text with the original unit names reads under the empty converter -/
+theorem C13_converter_independence_text (c : Conv Rat) (ρ : Str → Str) (h : Renames c ρ) (s s' : Str)
+    (ps : List (Str × Str)) (hnum : ∀ p ∈ ps, p.1.all isNumCh = true)
+    (hw : words s = ps.flatMap (fun p => [p.1, ρ p.2])) (hw' : words s' = ps.flatMap (fun p => [p.1, p.2])) :
+    parseTimeWithUnits c s = parseTimeWithUnits emptyConv s' := by
+  unfold parseTimeWithUnits
+  rw [hw, hw', pairLoop_renamed c ρ h ps hnum]
+
+/-- the time units of a converter have a non-zero ratio, as a computable check -/
+def SM.timeRatiosOK (c : Conv Rat) : Bool := c.units.all (fun u => !u.isTime || decide (u.ratio ≠ 0))
+
+/-- The BUNDLED converter (the quantifier names "the bundled, an empty and a renamed-units converter"): the converter the
+    builder model makes of the shipped units file (C16), seen as `src/metadata.rs` sees it (`convOfBuilt`), satisfies the
+    hypothesis `TimeRatiosNonzero` of the time theorems above; so they all apply to it. -/
+theorem C13_bundled_converter :
+    ∃ conv : Bld.Converter Rat, Bld.bundled = .ok conv ∧ TimeRatiosNonzero (convOfBuilt conv) := by
+  have h : ((Bld.bundled (α := Rat)).toOption.map (fun conv => SM.timeRatiosOK (convOfBuilt conv))) = some true := by
+    decide +kernel
+  cases hb : Bld.bundled (α := Rat) with
+  | error e => rw [hb] at h; cases h
+  | ok conv =>
+    refine ⟨conv, rfl, ?_⟩
+    rw [hb] at h
+    simp only [Except.toOption, Option.map_some, Option.some.injEq, SM.timeRatiosOK, List.all_eq_true] at h
+    intro u hu ht
+    have := h u hu
+    simp only [ht, Bool.not_true, Bool.false_or, decide_eq_true_eq] at this
+    exact this
+
 /-! ### non-vacuity -/
 
 example : commonTime ['1', 'h', '3', '0', 'm'] = some 90 := by decide +kernel
@@ -251,5 +348,22 @@ example : valueAsServings (.str ['2', '|', '2']) = none := by
   exact fun e => hd e.symm
 example : valueAsTags (.str ['a', ',', ' ', 'b', ',', 'a', ',']) = some [['a'], ['b']] := by decide +kernel
 example : valueAsLocale (.str ['e', 'n', '_', 'G', 'B']) = some (['e', 'n'], some ['G', 'B']) := by decide +kernel
+
+-- audit additions: `Metadata::time` over several keys; the canonical names are those of the source
+example : StdKey.canon .prepTime = ['p', 'r', 'e', 'p', ' ', 't', 'i', 'm', 'e'] := by decide +kernel
+def exKey (k : StdKey) (v : Str) : Y × Y := (.str k.canon, .str v)
+-- the `time` key wins, also when its value is rejected; without it prep/cook are combined, a bad one counts as absent
+example : metaTime (α := Rat) emptyConv [exKey .prepTime ['5'], exKey .time ['1', 'h']] = some (.total 60) := by decide +kernel
+example : metaTime (α := Rat) emptyConv [exKey .prepTime ['5'], exKey .time ['x']] = none := by decide +kernel
+example : metaTime (α := Rat) emptyConv [exKey .prepTime ['5'], exKey .cookTime ['x']] = some (.composed (some 5) none) := by
+  decide +kernel
+example : metaTime (α := Rat) emptyConv [exKey .cookTime ['x']] = none := by decide +kernel
+example : entryWarns (α := Rat) emptyConv (fun _ => false) (StdKey.canon .cookTime) (.str ['x']) = true := by decide +kernel
+-- the bundled converter: `90 sec`, `1.5h 20 min`; `m` is the meter there (a minute for the empty converter)
+def bundledView : Conv Rat := match Bld.bundled (α := Rat) with | .ok conv => convOfBuilt conv | .error _ => emptyConv
+example : parseTime bundledView ['9', '0', ' ', 's', 'e', 'c'] = some 2 := by decide +kernel
+example : parseTime bundledView ['1', '.', '5', 'h', ' ', '2', '0', ' ', 'm', 'i', 'n'] = some 110 := by decide +kernel
+example : (parseTimeWithUnits bundledView ['5', ' ', 'm'], parseTimeWithUnits (α := Rat) emptyConv ['5', ' ', 'm']) = (none, some 5) := by
+  decide +kernel
 
 end Cook
